@@ -243,13 +243,21 @@ pub fn run_scenario_case(fields: &[String]) -> String {
     let (Some(fixture), Some(bcfgs), Some(_), Some(tree)) = (parse_fixture(&fields[0]), parse_cfg_list(&fields[1], parse_bcfg), parse_cfg_list(&fields[2], parse_ccfg), parse_tree(&fields[3])) else { return "bad-op".into() };
     let ch = chain(&tree);
     if ch.iter().any(|i| *i >= bcfgs.len()) { return "bad-op".into(); }
-    let inj = fields[4].as_str();
-    let (mut fail_at, mut gone): (Option<usize>, Option<(&str, usize)>) = (None, None);
+    // injection field: `<base>[@<flavour>]`; base = `-` | `z:<k>[:<status>|:sig]` | `nfp:<j>` | `nfd:<j>`
+    let (inj, flavour) = match fields[4].split_once('@') { Some((a, f)) => (a, f), None => (fields[4].as_str(), "0") };
+    if flavour.parse::<u32>().map_or(true, |f| f > 3) { return "bad-op".into(); }
+    let (mut fail_at, mut gone): (Option<(usize, String)>, Option<(&str, usize)>) = (None, None);
     if inj != "-" {
-        let Some((k, v)) = inj.split_once(':') else { return "bad-op".into() };
-        let Ok(n) = v.parse::<usize>() else { return "bad-op".into() };
+        let parts: Vec<&str> = inj.split(':').collect();
+        let Some(Ok(n)) = parts.get(1).map(|v| v.parse::<usize>()) else { return "bad-op".into() };
         if n == 0 { return "bad-op".into(); }
-        match k { "z" => fail_at = Some(n), "nfp" => gone = Some(("pack", n)), "nfd" => gone = Some(("docker", n)), _ => return "bad-op".into() }
+        match (parts[0], parts.len()) {
+            ("z", 2) => fail_at = Some((n, "7".into())),
+            ("z", 3) if parts[2] == "sig" || parts[2].parse::<u8>().map_or(false, |c| c != 0) => fail_at = Some((n, parts[2].into())),
+            ("nfp", 2) => gone = Some(("pack", n)),
+            ("nfd", 2) => gone = Some(("docker", n)),
+            _ => return "bad-op".into(),
+        }
     }
     let root = tempfile::Builder::new().prefix("lct-").tempdir().unwrap();
     let root_path = root.path().canonicalize().unwrap();
@@ -270,7 +278,8 @@ pub fn run_scenario_case(fields: &[String]) -> String {
         .env("PATH", &bin).env("TMPDIR", &t).env("CARGO_MANIFEST_DIR", &m).env("LCT_ABS_BASE", &a)
         .env("STANDIN_LOG", &log).env("STANDIN_BIN", &bin).env("STANDIN_PACK_BUILD_RESULTS", pack_results.join(","))
         .stdin(std::process::Stdio::null()).stdout(std::process::Stdio::null()).stderr(std::process::Stdio::null());
-    if let Some(k) = fail_at { cmd.env("STANDIN_FAIL_AT", k.to_string()); }
+    if let Some((k, status)) = &fail_at { cmd.env("STANDIN_FAIL_AT", k.to_string()).env("STANDIN_FAIL_STATUS", status); }
+    cmd.env("STANDIN_FLAVOUR", flavour);
     if let Some((p, n)) = gone { cmd.env("STANDIN_GONE", format!("{p}:{n}")); }
     let mut child = cmd.spawn().unwrap();
     let start = std::time::Instant::now();
